@@ -720,7 +720,14 @@ pub fn get_deposit(
     pool_deposit: &BigNum, // // protocol parameter
     key_deposit: &BigNum,  // protocol parameter
 ) -> Result<Coin, JsError> {
-    internal_get_deposit(&txbody.certs, &pool_deposit, &key_deposit)
+    let mut deposit = internal_get_deposit(&txbody.certs, &pool_deposit, &key_deposit)?;
+    // governance proposals carry their own deposit
+    if let Some(proposals) = &txbody.voting_proposals {
+        for proposal in proposals {
+            deposit = deposit.checked_add(&proposal.deposit())?;
+        }
+    }
+    Ok(deposit)
 }
 
 #[derive(Debug, Clone, Eq, Ord, PartialEq, PartialOrd)]
